@@ -209,8 +209,16 @@ func (mbs *metadataPartStorage) AppendObject(ctx context.Context, bucketName sto
 			return storage.ErrTooManyParts
 		}
 
+		// Appends extend the null version in place. When the bucket is
+		// versioning-enabled, or the current version is a versioned (non-null)
+		// object of a suspended bucket, the append must not modify that version:
+		// a new row is written that shares the unchanged prefix.
+		writesNewRow := versioningEnabled
+		if existingObject != nil && existingObject.VersionID != nil && *existingObject.VersionID != "null" {
+			writesNewRow = true
+		}
 		if existingObject != nil {
-			if versioningEnabled {
+			if writesNewRow {
 				// The new version shares the unchanged prefix. Pre-acquiring registry
 				// references prevents a concurrent delete from condemning those parts.
 				allParts = make([]metadatastore.Part, 0, len(existingObject.Parts)+1)
@@ -265,6 +273,13 @@ func (mbs *metadataPartStorage) AppendObject(ctx context.Context, bucketName sto
 			ChecksumType: ptrutils.ToPtr(metadatastore.ChecksumTypeFullObject),
 			Size:         totalSize,
 			Parts:        allParts,
+		}
+		if existingObject != nil {
+			// Appends preserve the object's metadata, tags and storage class,
+			// also when the result is written as a new version row.
+			updatedObject.Metadata = existingObject.Metadata
+			updatedObject.Tags = existingObject.Tags
+			updatedObject.StorageClass = existingObject.StorageClass
 		}
 
 		metaOpts := &metadatastore.AppendObjectOptions{}
